@@ -296,6 +296,16 @@ func gen(tier string, rng *h.Rng, emit func(string)) {
 		}
 		emit("mg " + strings.Join(ss, "/"))
 	}
+	// 2b. every table entry alone: the LogCommon wrapper
+	for _, sp := range specs {
+		reps := 2
+		if thorough {
+			reps = 12
+		}
+		for r := 0; r < reps; r++ {
+			emit(fmt.Sprintf("ent %s %d", genHLog(sp.idx, rng.Intn(1000), rng, false), r%2))
+		}
+	}
 	// 3. the real adaptor
 	lists := [][]int{nodeSubscribes}
 	nsub := 220
